@@ -7,6 +7,7 @@ import (
 	"fmt"
 	"strings"
 
+	"github.com/AdguardTeam/AdGuardDNS/internal/agdnet"
 	"github.com/AdguardTeam/AdGuardDNS/internal/dnsmsg"
 	"github.com/AdguardTeam/AdGuardDNS/internal/filter"
 	"github.com/AdguardTeam/AdGuardDNS/internal/filter/hashprefix"
@@ -288,7 +289,10 @@ func parseRespAnswer(ans dns.RR) (hostname string, rrType dnsmsg.RRType, ok bool
 	case *dns.AAAA:
 		return ans.AAAA.String(), dns.TypeAAAA, true
 	case *dns.CNAME:
-		return strings.TrimSuffix(ans.Target, "."), dns.TypeCNAME, true
+		// Domain names are case-insensitive, and the rule lists are matched
+		// against normalized names, so normalize the target the same way the
+		// question name is normalized.
+		return agdnet.NormalizeDomain(ans.Target), dns.TypeCNAME, true
 	default:
 		return "", dns.TypeNone, false
 	}
